@@ -313,3 +313,72 @@ Proof.
   induction fuel; intros pos; cbn [scan]; [reflexivity|].
   cbn [cyclic_log j_blk]. rewrite N.eqb_refl. cbn [negb orb length]. apply IHfuel.
 Qed.
+
+(* ======================================================================== *)
+(* C04: interruption of recovery.  Until the journal superblock is rewritten
+   the log is untouched, and replay writes only blocks that have an effective
+   item; so recovery re-run from ANY state in which the other blocks are
+   unchanged ends with the same contents. *)
+Lemma final_match (r1 r2 : fsmap * bool) (x : bool) (n : N) :
+  snd r1 = snd r2 -> (forall b, fst r1 b = fst r2 b) ->
+  match (if snd r1 || x || x then RecErr (fst r1) n else RecOk (fst r1) n),
+        (if snd r2 || x || x then RecErr (fst r2) n else RecOk (fst r2) n) with
+  | RecOk f1 n1, RecOk f2 n2 | RecErr f1 n1, RecErr f2 n2 => n1 = n2 /\ forall b, f1 b = f2 b
+  | RecFail, RecFail | RecFuel, RecFuel => True
+  | _, _ => False
+  end.
+Proof. intros E1 E2. rewrite <- E1. destruct (snd r1 || x || x); split; auto. Qed.
+
+Theorem recover_rerun_same fuel j fs fs_c :
+  (forall e items en,
+      scan fuel j (j_start j) (j_seq j) false 0 None = SEnd e ->
+      walk fuel j (j_start j) (j_seq j) e = WOk items en ->
+      forall b, eff (fold_left add_rev items []) b items = [] -> fs_c b = fs b) ->
+  match recover fuel j fs, recover fuel j fs_c with
+  | RecOk f1 n1, RecOk f2 n2 | RecErr f1 n1, RecErr f2 n2 => n1 = n2 /\ forall b, f1 b = f2 b
+  | RecFail, RecFail | RecFuel, RecFuel => True
+  | _, _ => False
+  end.
+Proof.
+  intros H. pose proof (recover_blocks fuel j fs) as R1. pose proof (recover_blocks fuel j fs_c) as R2.
+  unfold recover in *.
+  destruct (scan fuel j (j_start j) (j_seq j) false 0 None) as [e| |] eqn:S; auto.
+  rewrite revoke_is_walk in *. destruct (walk fuel j (j_start j) (j_seq j) e) as [items en| |] eqn:Wk; auto.
+  rewrite !replay_is_walk, Wk in *. cbv zeta in *.
+  set (T := fold_left add_rev items []) in *.
+  assert (B0 : forall (t : rtable) (l : list item) st st', snd st = snd st' ->
+                snd (fold_left (app_item t) l st) = snd (fold_left (app_item t) l st')).
+  { clear. intros t. induction l as [|i r IH]; intros st st' E; cbn [fold_left]; auto.
+    apply IH. destruct i as [id blk c ok|id blk]; cbn [app_item]; auto.
+    destruct (test_rev t blk id); auto. destruct (negb ok); cbn [snd]; auto. }
+  pose proof (B0 T items (fs, false) (fs_c, false) eq_refl) as B.
+  clear R1 R2.
+  assert (E : forall b, fst (fold_left (app_item T) items (fs, false)) b =
+                        fst (fold_left (app_item T) items (fs_c, false)) b).
+  { intros b. rewrite !replay_block.
+    destruct (eff T b items) as [|c r] eqn:EF.
+    - cbn. symmetry. apply (H e items en eq_refl Wk b EF).
+    - unfold last_or. cbn [fold_left]. reflexivity. }
+  apply final_match; auto.
+Qed.
+
+(* the order of device operations issued by a recovering front end *)
+Inductive dev_ev := DWr (blk : N) (c : bytes) | DSync | DJsbReset | DSbClear.
+
+Definition recovery_trace (t : rtable) (items : list item) : list dev_ev :=
+  flat_map (fun i => match i with
+                     | IW id b c ok => if ok && negb (test_rev t b id) then [DWr b c] else []
+                     | IR _ _ => []
+                     end) items
+  ++ [DSync; DJsbReset; DSync; DSbClear; DSync].
+
+(* every replay write precedes a sync that precedes the journal reset, which
+   precedes a sync that precedes clearing needs_recovery *)
+Theorem release_after_sync t items :
+  exists ws, recovery_trace t items = ws ++ [DSync; DJsbReset; DSync; DSbClear; DSync] /\
+             forall e, In e ws -> exists b c, e = DWr b c.
+Proof.
+  unfold recovery_trace. eexists. split; [reflexivity|].
+  intros e H. apply in_flat_map in H. destruct H as ([id b c ok|id b] & _ & H); [|destruct H].
+  destruct (ok && negb (test_rev t b id)); [|destruct H]. destruct H as [<-|[]]. eauto.
+Qed.
